@@ -55,6 +55,9 @@ struct Outcome {
     long steps = 0, decisions = 0, switches = 0, events = 0;
     std::vector<std::vector<uint16_t>> decisions_log; // per op
     J sample;                        // short description of the case
+    long alloc_requests = 0;         // allocator requests of the last op
+    std::vector<long> stack_marks;   // caller-workspace usage marks of the last op
+    double mem_total_needed = 0;
 };
 
 // ---------------------------------------------------------------- (de)serialisation
